@@ -345,6 +345,8 @@ def saved_game_skip_is_relative(F, S):
 
 def check(F, run, tier):
     S = Summaries(F)
+    from ..rules_archive import find_position_obligations
+    find_position_obligations(F, S, run, ["/Map/"])
     from ..rules_archive import discarded_exception_obligations
     discarded_exception_obligations(F, S, run)
     from ..rules_archive import cstring_obligations
